@@ -8,6 +8,7 @@ import (
 	"github.com/orda-io/orda/client/pkg/internal/datatypes"
 	"github.com/orda-io/orda/client/pkg/model"
 	"github.com/orda-io/orda/client/pkg/operations"
+	"github.com/orda-io/orda/client/pkg/types"
 	"github.com/orda-io/orda/client/pkg/utils"
 	"github.com/wI2L/jsondiff"
 	"strconv"
@@ -269,6 +270,9 @@ func (its *document) PutToObject(key string, value interface{}) (Document, error
 	if err := its.assertLocalOp("PutToObject", TypeJSONObject, false); err != nil {
 		return nil, err
 	}
+	if types.HasNilValue(value) {
+		return nil, errors.DatatypeIllegalParameters.New(its.L(), "null value is not allowed")
+	}
 	op := operations.NewDocPutInObjOperation(its.snapshot().getCreateTime(), key, value)
 	removed, err := its.SentenceInTx(its.TxCtx, op, true)
 	if err != nil {
@@ -337,6 +341,11 @@ func (its *document) InsertToArray(pos int, values ...interface{}) (Document, er
 	if err := arr.validateInsertPosition(pos); err != nil {
 		return its, err
 	}
+	for _, v := range values {
+		if types.HasNilValue(v) {
+			return its, errors.DatatypeIllegalParameters.New(its.L(), "null value is not allowed")
+		}
+	}
 	op := operations.NewDocInsertToArrayOperation(its.snapshot().getCreateTime(), pos, values)
 	if _, err := its.SentenceInTx(its.TxCtx, op, true); err != nil {
 		return its, err
@@ -381,6 +390,11 @@ func (its *document) UpdateManyInArray(pos int, values ...interface{}) ([]Docume
 	arr := its.snapshot().(*jsonArray)
 	if err := arr.validateGetRange(pos, len(values)); err != nil {
 		return nil, err
+	}
+	for _, v := range values {
+		if types.HasNilValue(v) {
+			return nil, errors.DatatypeIllegalParameters.New(its.L(), "null value is not allowed")
+		}
 	}
 	op := operations.NewDocUpdateInArrayOperation(its.snapshot().getCreateTime(), pos, values)
 	oldOnes, err := its.SentenceInTx(its.TxCtx, op, true)
